@@ -251,7 +251,7 @@ Definition c_run (lib : flib) (r : creq) : list Z :=
       let z := q_get S (map ev U) d (ev coef) (cons_sub prec emax Hprec Hmax const) (ofb re, ofb im) in [tob (fst z); tob (snd z)]
   | CBin ac o U d are aim bre bim bnrm =>
       let S := StC prec emax Hprec Hmax (fun _ _ => ofb bnrm) lib in
-      let f := match o with BAdd => cadd prec emax Hprec Hmax | BSub => csub_ prec emax Hprec Hmax | _ => cmul_ prec emax Hprec Hmax end in
+      let f := match o with BAdd => cxadd prec emax Hprec Hmax | BSub => csub_ prec emax Hprec Hmax | _ => cmul_ prec emax Hprec Hmax end in
       let z := q_bin S f ac (map ev U) (map ev U) d (ofb are, ofb aim) (ofb bre, ofb bim) in [tob (fst z); tob (snd z)]
   | CEqual ac U d are aim bre bim bnrm =>
       let S := StC prec emax Hprec Hmax (fun _ _ => ofb bnrm) lib in
